@@ -6,6 +6,7 @@ import Splipy.Lemmas.C13Eval
 import Splipy.Lemmas.C13Lift
 import Splipy.Lemmas.C13Three
 import Splipy.Lemmas.C13Factory
+import Mathlib.Analysis.SpecialFunctions.Sqrt
 
 /-!
 # Property C13 — primitive factories produce the exact shapes they name, placed as requested
@@ -2225,3 +2226,95 @@ theorem C13_factory_nGon_partial (n : ℕ) (r c1 c2 c3 nx ny nz ρ N ct st cp sp
   · simp [nGon, not_le.mpr hr, show ¬ n < 3 by omega, flipAndMove, hn, hc, Fac.Obj.rotateY, Fac.Obj.rotateZ,
       Fac.Obj.translate, Fac.Obj.setDimension, Fac.Obj.mapPts, curveOf, bind, Except.bind, pure, Except.pure,
       List.map_map, Function.comp_def]
+
+/-! ## Instances over ℝ — the factory theorems are not vacuous
+
+The factory theorems assume `w² = 1/2` resp. `s2² = 2` for the weight constants.  No rational number
+satisfies either, so over `ℚ` (the field the executable model is run at, with floating-point
+constants supplied by the harness) the hypotheses cannot be met.  Over `ℝ` they can: here the
+constants are `π`, `√2/2`, `√2`, the circle has radius 3, centre `(1,0,0)`, normal `e_x` and x-axis
+`e_y`, and every hypothesis of `C13_factory_circle_p2C0_partial`, `…_p4C1_partial`, both ellipse
+theorems, the cylinder theorem and the arc theorem is discharged, so their conclusions hold for these
+concrete real objects. -/
+
+
+noncomputable def realConsts : Consts ℝ := { pi := Real.pi, w := Real.sqrt 2 / 2, s2 := Real.sqrt 2 }
+theorem realConsts_w : realConsts.w ^ 2 = 1 / 2 ∧ 0 < realConsts.w := by
+  constructor
+  · simp only [realConsts]; rw [div_pow, Real.sq_sqrt (by norm_num)]; norm_num
+  · simp only [realConsts]; positivity
+theorem realConsts_s2 : realConsts.s2 ^ 2 = 2 ∧ 0 < realConsts.s2 := by
+  constructor
+  · simp only [realConsts]; rw [Real.sq_sqrt (by norm_num)]
+  · simp only [realConsts]; positivity
+
+theorem C13_factory_real_instances :
+    (∃ o : Fac.Obj ℝ, circle realConsts 3 [1, 0, 0] [1, 0, 0] "p4C1" [0, 1, 0] ⟨1, 0, 0, 1⟩ 1 = .ok o ∧ o.dim = 3) ∧
+    (∃ o : Fac.Obj ℝ, ellipse realConsts 3 2 [1, 0, 0] [1, 0, 0] "p2C0" [0, 1, 0] ⟨1, 0, 0, 1⟩ 1 = .ok o ∧ o.dim = 3) ∧
+    (∃ o : Fac.Obj ℝ, ellipse realConsts 3 2 [1, 0, 0] [1, 0, 0] "p4C1" [0, 1, 0] ⟨1, 0, 0, 1⟩ 1 = .ok o ∧ o.dim = 3) ∧
+    (∃ o : Fac.Obj ℝ, cylinder realConsts 3 [2, 0, 0] [1, 0, 0] [1, 0, 0] [0, 1, 0] ⟨1, 0, 0, 1⟩ 1 = .ok o ∧ o.dim = 3) := by
+  have hn : allcloseEz [(1:ℝ), 0, 0] = false := by simp [allcloseEz, close1]; norm_num
+  have hc : allcloseZero [(1:ℝ), 0, 0] = false := by simp [allcloseZero, close1]; norm_num
+  have hl2 : (1:ℝ) ^ 2 = ((localXVec [(0:ℝ), 1, 0] ⟨1, 0, 0, 1⟩).getD 0 0) ^ 2
+                + ((localXVec [(0:ℝ), 1, 0] ⟨1, 0, 0, 1⟩).getD 1 0) ^ 2 := by simp [localXVec, rotYPt, rotZPt]
+  refine ⟨?_, ?_, ?_, ?_⟩
+  · obtain ⟨o, ho, _, _, hd, _⟩ := C13_factory_circle_p4C1_partial realConsts 3 1 0 0 1 0 0 0 1 0 1 1 1 1 0 0 1
+      Real.pi_pos realConsts_s2.1 realConsts_s2.2 (by norm_num) hn hc
+      (by norm_num) (by norm_num) (by norm_num) (fun _ => by norm_num) (by norm_num)
+      (by norm_num) (by norm_num) (by norm_num) (by norm_num) hl2
+    exact ⟨o, ho, hd⟩
+  · obtain ⟨o, ho, _, _, hd, _⟩ := C13_factory_ellipse_p2C0_partial realConsts 3 2 1 0 0 1 0 0 0 1 0 1 1 1 1 0 0 1
+      Real.pi_pos realConsts_w.1 realConsts_w.2 (by norm_num) (by norm_num) hn hc
+      (by norm_num) (by norm_num) (by norm_num) (fun _ => by norm_num) (by norm_num)
+      (by norm_num) (by norm_num) (by norm_num) (by norm_num) hl2
+    exact ⟨o, ho, hd⟩
+  · obtain ⟨o, ho, _, _, hd, _⟩ := C13_factory_ellipse_p4C1_partial realConsts 3 2 1 0 0 1 0 0 0 1 0 1 1 1 1 0 0 1
+      Real.pi_pos realConsts_s2.1 realConsts_s2.2 (by norm_num) (by norm_num) hn hc
+      (by norm_num) (by norm_num) (by norm_num) (fun _ => by norm_num) (by norm_num)
+      (by norm_num) (by norm_num) (by norm_num) (by norm_num) hl2
+    exact ⟨o, ho, hd⟩
+  · obtain ⟨o, ho, _, _, hd, _⟩ := C13_factory_cylinder_partial realConsts 3 2 0 0 1 0 0 1 0 0 0 1 0 1 1 1 1 0 0 1
+      Real.pi_pos realConsts_w.1 realConsts_w.2 (by norm_num) hn hc
+      (by norm_num) (by norm_num) (by norm_num) (fun _ => by norm_num) (by norm_num)
+      (by norm_num) (by norm_num) (by norm_num) (by norm_num) hl2
+    exact ⟨o, ho, hd⟩
+
+/-- the radius-3 circle about `(1,0,0)` in the plane `x = 1`: every evaluated point is on it. -/
+theorem C13_factory_circle_real_instance :
+    (∃ o : Fac.Obj ℝ,
+      circle realConsts 3 [1, 0, 0] [1, 0, 0] "p2C0" [0, 1, 0] ⟨1, 0, 0, 1⟩ 1 = .ok o ∧ o.cps.length = 8 ∧
+      (∀ (s : Side) (t : ℝ), s.mem 0 (2 * Real.pi) t →
+        let τ := ({ order := 3, knots := (circleKnotsP2 Real.pi).toArray, periodic := 0 } : Basis ℝ).kn
+        let xh := splineVal s τ 2 9 (netComp o.cps 0) t
+        let yh := splineVal s τ 2 9 (netComp o.cps 1) t
+        let zh := splineVal s τ 2 9 (netComp o.cps 2) t
+        let wh := splineVal s τ 2 9 (netComp o.cps 3) t
+        0 < wh ∧ (xh / wh - 1) ^ 2 + (yh / wh - 0) ^ 2 + (zh / wh - 0) ^ 2 = (3:ℝ) ^ 2 ∧
+        (xh / wh - 1) * 1 + (yh / wh - 0) * 0 + (zh / wh - 0) * 0 = 0)) := by
+  have hw2 := realConsts_w.1
+  have hw0 := realConsts_w.2
+  obtain ⟨o, ho, _, _, _, hl, _, hev, _⟩ :=
+    C13_factory_circle_p2C0_partial realConsts 3 1 0 0 1 0 0 0 1 0 1 1 1 1 0 0 1
+      Real.pi_pos hw2 hw0 (by norm_num)
+      (by simp [allcloseEz, close1]; norm_num) (by simp [allcloseZero, close1]; norm_num)
+      (by norm_num) (by norm_num) (by norm_num) (fun _ => by norm_num) (by norm_num)
+      (by norm_num) (by norm_num) (by norm_num) (by norm_num)
+      (by simp [localXVec, rotYPt, rotZPt])
+  exact ⟨o, ho, hl, hev⟩
+
+/-- the half circle `circle_segment(π, 3, (1,0,0), e_x, e_y)` with two spans (`cos π/4 = sin π/4 = √2/2`). -/
+theorem C13_factory_circle_segment_real_instance :
+    ∃ o : Fac.Obj ℝ, circleSegment realConsts Real.pi 3 [1, 0, 0] [1, 0, 0] [0, 1, 0]
+        ⟨2, Real.sqrt 2 / 2, Real.sqrt 2 / 2⟩ ⟨1, 0, 0, 1⟩ 1 = .ok o ∧ o.cps.length = 5 := by
+  have hq : (Real.sqrt 2 / 2) ^ 2 = 1 / 2 := realConsts_w.1
+  obtain ⟨o, ho, _, _, _, _, hl, _⟩ := C13_factory_circle_segment_partial realConsts 3 Real.pi 1 0 0 1 0 0 0 1 0 1 1 1 1 0 0 1
+      Real.pi_pos ⟨2, Real.sqrt 2 / 2, Real.sqrt 2 / 2⟩ (by norm_num) Real.pi_pos
+      (by show Real.pi ≤ 2 * Real.pi; linarith [Real.pi_pos])
+      (by show Real.pi ≠ 2 * Real.pi; linarith [Real.pi_pos])
+      (by show (Real.sqrt 2 / 2) ^ 2 + (Real.sqrt 2 / 2) ^ 2 = 1; rw [hq]; norm_num)
+      (by show 0 < Real.sqrt 2 / 2; positivity) (by norm_num)
+      (by simp [allcloseEz, close1]; norm_num) (by simp [allcloseZero, close1]; norm_num)
+      (by norm_num) (by norm_num) (by norm_num) (fun _ => by norm_num) (by norm_num)
+      (by norm_num) (by norm_num) (by norm_num) (by norm_num)
+      (by simp [localXVec, rotYPt, rotZPt])
+  exact ⟨o, ho, hl⟩
